@@ -1,4 +1,4 @@
-import Proofs.Lemmas.HeapCheck
+import Proofs.Lemmas.HeapEntries
 /-
 C11 — Copies and sibling instances share no mutable state.
 
@@ -427,5 +427,54 @@ example : (match copyRoot [exCls] exUncFixed exA.2 with
       | some (_, c2) => decide (c1 ≠ c2)
       | none => false)
     | none => false) = true := by decide
+
+/-! ## Internal sharing structure
+
+Observational equality includes the *internal* sharing structure: which `__dict__` entries lead to the same object.
+A fresh model / linker has `endogenous` and `check` as two different new lists (also when `CHECK is ENDOGENOUS` at
+class level), and a copy made by `copy()` never has an object reachable from two different entries (each entry is
+deep-copied by its own `deepcopy` call) — so a fresh instance and its copies have the same, trivial, entry-level
+structure.  The other side of the same fact is the open finding `copy-cuts-internal-alias`: an object the USER stores
+under two attributes is duplicated by `copy()` (example below). -/
+
+/-- **fresh_check_is_not_endogenous.** -/
+theorem fresh_check_is_not_endogenous (ci : Nat) (cd : ClassDesc) (h : Heap) (span sub : Val)
+    (hc : cd.base ≠ .container) :
+    ∃ L, (construct cd h span sub).2.lookup "endogenous" = some (.ref L) ∧
+         (construct cd h span sub).2.lookup "check" = some (.ref (L + 1)) :=
+  construct_check_ne_endogenous cd h span sub hc
+
+/-- **copy_entries_separate.**  In the copy of a container / model no object is reachable from two different
+    `__dict__` entries. -/
+theorem copy_entries_separate {cs : List ClassDesc} {h h1 : Heap} {a c : Nat} {o : Obj} {ci : Nat} {cd : ClassDesc}
+    (W : WorldOK2 cs h) (ho : h[a]? = some o) (hk : o.kind = .inst ci) (hcd : cs[ci]? = some cd)
+    (hnl : cd.base ≠ .linker) (hc : copyRoot cs h a = some (h1, c)) : EntriesSeparate h1 c :=
+  copyRoot_entries_separate W ho hk hcd hnl hc
+
+/-- Executable form of `EntriesSeparate` (for the examples and the driver). -/
+def entryAliases (h : Heap) (a : Nat) : List (String × String) :=
+  match h[a]? with
+  | none => []
+  | some o =>
+    o.slots.flatMap fun p => o.slots.filterMap fun q =>
+      if p.1 < q.1 ∧ ((paths h 8 "" p.2).map (·.2)).any (fun x => ((paths h 8 "" q.2).map (·.2)).contains x)
+      then some (p.1, q.1) else none
+
+-- a fresh instance and its copy: no entry-level aliases
+set_option maxRecDepth 8000 in
+example : entryAliases exB.1 exA.2 = [] := by decide
+set_option maxRecDepth 8000 in
+example : (match copyRoot [exCls] exH exA.2 with
+    | some (h1, c) => decide (entryAliases h1 c = [])
+    | none => false) = true := by decide
+-- the open finding in the model: the user stores one list under `p` and `q`; the copy has two lists
+def exAliased : Heap :=
+  run (applyOp exB.1 exA.2 (.addAttrList "p" ["u"])) exA.2
+    [⟨[], .bindNew "q" .tuple [("0", .alias ["p"])]⟩]
+set_option maxRecDepth 8000 in
+example : entryAliases exAliased exA.2 = [("p", "q")] ∧
+    (match copyRoot [exCls] exAliased exA.2 with
+      | some (h1, c) => decide (entryAliases h1 c = [])
+      | none => false) = true := by decide
 
 end Fsic.C11
